@@ -73,6 +73,7 @@ def with_watchdog(fn, seconds=2.0):
 
 
 _GRID = None
+_GRID_PID = "?"
 
 
 def _grid_worker(chunk):
@@ -96,13 +97,26 @@ def _grid_worker(chunk):
             viol.append((v.monitor, v.msg, case))
             if "terminate" in v.msg or "loop" in v.monitor:
                 slow += 1
+        except (common.HarnessError, Timeout):
+            raise
+        except Exception as e:  # noqa
+            import traceback
+            tb = traceback.extract_tb(e.__traceback__)
+            if tb and tb[-1].filename.startswith(common.REPO + "/"):
+                # raised inside the library on a case the grid considers valid (expected refusals are caught by the
+                # grid functions themselves): a finding of this check, not a failure of the harness
+                viol.append(("%s.api_raised" % _GRID_PID, "a library call on an input of the grid raised | %s: %s at %s:%d" % (
+                    type(e).__name__, str(e)[:80], tb[-1].filename[len(common.REPO) + 1:], tb[-1].lineno), case))
+            else:
+                raise
     return n, viol, wit, classes
 
 
 def run_grid(res, label, cases, fn, seed=0, sample_n=3, payload_extra=None):
     """fn(case, wit) raises Violation or returns a hashable 'outcome class' (for distinct counts)."""
-    global _GRID
+    global _GRID, _GRID_PID
     _GRID = fn
+    _GRID_PID = res.property_id
     t0 = time.time()
     cases = list(cases)
     nchunks = max(1, min(len(cases), common.NPROC * 8))
